@@ -346,3 +346,5 @@ def check(case: dict[str, Any], rec: Any) -> None:
 
 
 FINDINGS: dict[str, Any] = {}
+
+LEVEL_NOTE += ' Rounds 13-14: a stream without samples for some timestamps mid-run; an input stream closed while the others go on.'
